@@ -26,4 +26,7 @@ func C10(r *core.Run) {
 	rules.PoolOwnership(r, []string{"internal/codec", "lib/j5reflect", "lib/j5schema"})
 	rules.PoolAlias(r, []string{"internal/codec", "lib/j5reflect", "lib/j5schema"})
 	rules.LockPairing(r, []string{"internal/codec", "lib/j5reflect", "lib/j5schema"})
+	// "each call returns the result it returns when run alone": a failed build leaves nothing in the shared
+	// cache that a later call (of another goroutine, for another message) could find
+	registeredRefsRolledBack(r)
 }
